@@ -73,10 +73,10 @@ def handle (c : Json) : Json :=
     | some ts => mkObj [
         ("meaning", jArr [jStr (tyS ts.yieldT), jStr (tyS ts.sendT), jStr (tyS ts.returnT)]),
         ("admits", jBool (annAdmitsGenerator a)),
-        ("typingSpelling", jBool (typingSpelling a)),
+        ("supportedSpelling", jBool (supportedSpelling a)),
         ("allConforming", jBool (allConforming confC ts plain)),
         ("nonconf", mkObj [("Y", nonconf ts.yieldT), ("S", nonconf ts.sendT), ("R", nonconf ts.returnT)])]
-    | none => mkObj [("meaning", Json.null), ("admits", jBool (annAdmitsGenerator a)), ("typingSpelling", jBool (typingSpelling a))]
+    | none => mkObj [("meaning", Json.null), ("admits", jBool (annAdmitsGenerator a)), ("supportedSpelling", jBool (supportedSpelling a))]
   mkObj [
     ("model", match model with
       | some steps => mkObj [("created", jBool true), ("steps", stepsJ steps)]
